@@ -1733,8 +1733,11 @@ def orc_hashseed(case):
     import subprocess
     import sys
     cases = _hashseed_cases(case['n'], case['seed0'])
-    env = dict(os.environ, PYTHONHASHSEED=str(case['hashseed']))
+    import rsatoolbox
     root = os.path.dirname(os.path.dirname(os.path.abspath(__file__)))
+    lib = os.path.dirname(os.path.dirname(os.path.abspath(rsatoolbox.__file__)))      # the tree under test in THIS interpreter
+    env = dict(os.environ, PYTHONHASHSEED=str(case['hashseed']),
+               PYTHONPATH=os.pathsep.join([lib, root] + [p for p in os.environ.get('PYTHONPATH', '').split(os.pathsep) if p]))
     pr = subprocess.run([sys.executable, '-c', _HASHSEED_SCRIPT], input=json.dumps(cases), capture_output=True, text=True,
                         env=env, cwd=root, timeout=300)
     lines = [ln for ln in pr.stdout.splitlines() if ln.startswith('C10-HASHSEED-RESULT ')]
